@@ -41,6 +41,7 @@ def evalNuc (op : String) (args : List Sexp) : Option String :=
       if s.length = 0 ∨ q.length = 0 then pure (encSegs [])
       else if !Nuc.matchModelled q then pure "UNMODELLED"
       else pure (encSegs (Nuc.matchSegs s q))
+  | "nuc.matchok", [_, _] => pure "OK"   -- the model's matcher is total: `Match` never crashes, on any bytes
   | "nuc.search", [s, q] => do pure (encSegs (Nuc.search (← decBytes? s) (← decBytes? q)))
   | "nuc.indexall", [s, q] => do
       pure (encList ((Nuc.indexAll (← decBytes? s) (← decBytes? q)).map toString))
